@@ -1,11 +1,48 @@
-import TucanProofs.Lemmas.Sort
-import TucanModel.Canon
-/-! # C13 — property theorems (see DESIGN.md §5) -/
+import TucanProofs.Lemmas.Pipeline
+import TucanProofs.Examples
+/-!
+# C13 — partition classes are label-independent, equitable and respect symmetry
+
+`r` is the refined graph inside `canonicalize_molecule` (the graph handed to bliss): its nodes still
+carry the input's labels, so `partOf? r a` is "the class of input atom `a`"; the canonical graph is `r`
+renamed.  No oracle is involved: `order` is arbitrary.
+-/
 namespace Tucan
 
-/-- The neighbour part of an attribute sequence does not depend on the order in which the neighbours
-are listed. -/
-theorem C13_neighbour_keys_listing_independent {l₁ l₂ : List Key} (h : l₁.Perm l₂) :
-    sortKDesc l₁ = sortKDesc l₂ := sortKDesc_perm_eq h
+/-- **Label independence.**  `class(f a)` in the second description equals `class(a)` in the first, and
+both refinements take the same number of rounds. -/
+theorem C13_label_independent (order order' : Graph → List Nat) (f : Nat → Nat) (g g' c c' r r' : Graph) (k k' : Nat)
+    (iso : Iso SameIdent f g g') (hw : g.WF) (hs : g.Simple) (hw' : g'.WF) (hs' : g'.Simple)
+    (h : canonicalizeWith g order = .ok (c, r, k)) (h' : canonicalizeWith g' order' = .ok (c', r', k')) :
+    k = k' ∧ ∀ a ∈ g.labels, partOf? r' (f a) = partOf? r a := by
+  obtain ⟨hk, isoR, _, _, _, _⟩ := refined_equivariant iso hw hs hw' hs' h h'
+  obtain ⟨_, _, hrl, _⟩ := refined_facts hw hs h
+  exact ⟨hk, fun a ha => partOf?_iso isoR (hrl ▸ ha)⟩
+
+/-- **Equitable.**  Atoms in one class share the invariant code (element, mass, radical) and see the same
+multiset of classes among their neighbours. -/
+theorem C13_equitable (order : Graph → List Nat) (g c r : Graph) (k : Nat) (hw : g.WF) (hs : g.Simple)
+    (h : canonicalizeWith g order = .ok (c, r, k)) :
+    ∀ a ∈ r.labels, ∀ b ∈ r.labels, partOf? r a = partOf? r b →
+      keyD r .invariantCode a = keyD r .invariantCode b ∧
+      sortKDesc ((r.nbrs a).map (keyD r .partition)) = sortKDesc ((r.nbrs b).map (keyD r .partition)) := by
+  obtain ⟨heq, hresp, _⟩ := refined_facts hw hs h
+  intro a ha b hb hab
+  exact ⟨hresp a ha b hb hab, heq a ha b hb hab⟩
+
+/-- **Symmetry.**  Two atoms that are mapped onto each other by a symmetry of the molecule (an
+identity-preserving automorphism) are in the same class. -/
+theorem C13_automorphism (order : Graph → List Nat) (σ : Nat → Nat) (g c r : Graph) (k : Nat)
+    (auto : Iso SameIdent σ g g) (hw : g.WF) (hs : g.Simple)
+    (h : canonicalizeWith g order = .ok (c, r, k)) :
+    ∀ a ∈ g.labels, partOf? r (σ a) = partOf? r a :=
+  (C13_label_independent order order σ g g c c r r k k auto hw hs hw hs h h).2
+
+/-- the number of refinement rounds is bounded by the number of atoms (+1) -/
+theorem C13_rounds_bounded (order : Graph → List Nat) (g c r : Graph) (k : Nat) (hw : g.WF) (hs : g.Simple)
+    (h : canonicalizeWith g order = .ok (c, r, k)) : k ≤ g.numberOfNodes + 1 :=
+  (refined_facts hw hs h).2.2.2.2.2.2
+
+example : exGraph.WF ∧ exGraph.Simple := ⟨exGraph_wf, exGraph_simple⟩
 
 end Tucan
